@@ -418,6 +418,20 @@ def run_table(rec, region, coords, inbits, func, fmt, names_sel, order_seed, bas
     order = [["uid", racol, deccol, "peak_flux", "name"], [racol, "name", deccol, "uid", "peak_flux"],
              ["name", "peak_flux", "uid", deccol, racol]][order_seed % 3]
     t = Table({k: cols[k] for k in order})
+    if func == "mask_table" and order_seed % 2 == 1 and any(not (np.isfinite(c[0]) and np.isfinite(c[1])) for c in coords):
+        # undefined coordinates as MASKED entries (outer joins, null-filling readers): the hidden value
+        # under the mask is a position INSIDE the region and must never be used
+        inside = [c for c, b in zip(coords, inbits) if b and np.isfinite(c[0]) and np.isfinite(c[1])]
+        if inside:
+            t = Table(t, masked=True)
+            for i, c in enumerate(coords):
+                if not np.isfinite(c[0]):
+                    t[racol][i] = inside[0][0]
+                    t[racol].mask[i] = True
+                if not np.isfinite(c[1]):
+                    t[deccol][i] = inside[0][1]
+                    t[deccol].mask[i] = True
+            rec["masked_input"] = True
     rec["names"], prow = project_table(t, racol, deccol)
     rec["rows"] = [{"key": p["key"], "cols": p["cols"],
                     "ra_def": bool(np.isfinite(c[0])), "dec_def": bool(np.isfinite(c[1])), "in": bool(b)}
